@@ -3,7 +3,7 @@
 (* observation of the implementation must satisfy the reference semantics  *)
 (* of the case's kind.  All lines are judged; the set of rejected line     *)
 (* numbers is printed at the end ("BAD" line) - TLC decides every case.    *)
-EXTENDS TextMatch, ReMatch, ReVM, Cond, ArenaFile, Limits, FieldMut, Json, IOUtils, TLC
+EXTENDS TextMatch, ReMatch, Atoms, ReVM, Cond, ArenaFile, Limits, FieldMut, Json, IOUtils, TLC
 SH == INSTANCE SigHandler WITH Threads <- {1}, Scans <- 1, CountInsideIf <- FALSE, pc <- 0, left <- 0, mutex <- 0, usecount <- 0, installed <- FALSE, log <- << >>, SaveMask <- TRUE, MaxFaults <- 0, blocked <- 0, faults <- 0, killed <- FALSE
 CQ == INSTANCE CliQueue WITH NFiles <- 1, Consumers <- {1}, Q <- 1, FinishTokens <- 1, NoMutex <- FALSE, ring <- 0, head <- 0, tail <- 0, used <- 0, unused <- 0,
                           qlock <- 0, pcP <- 0, todo <- << >>, pcC <- 0, got <- 0, scanned <- 0, overwritten <- FALSE
@@ -65,6 +65,7 @@ CaseOK(c) ==
     [] c.kind = "rescanerr" -> FALSE      \* a scan of a small buffer with a small expression must end with a verdict, not an error
     [] c.kind = "cond" -> c.obs = Verdict(c.ast, c.env)
     [] c.kind = "static" -> StaticOK(c)
+    [] c.kind = "atoms" -> AtomsOK(c)
     [] c.kind = "load" -> c.ret = LoadBytes(c.file, c.n)
     [] c.kind = "corrupt" -> CorruptOK(c.ret)
     [] c.kind = "audit" -> AuditOK(c)
@@ -90,7 +91,7 @@ CaseOK(c) ==
 KnownCase(c) ==
   CASE c.kind = "re" -> IF StringObsOK_D14(c) THEN "D14" ELSE IF StringObsOK_D12(c) /\ ChainsKnownOK(c) THEN "D12"
                         ELSE IF StringObsOK_D17(c) THEN "D17" ELSE IF StringObsOK_D40(c) THEN "D40" ELSE "none"
-    [] c.kind = "rescanerr" -> IF HasNullableCounted(c.ast) THEN "D40" ELSE "none"
+    [] c.kind = "rescanerr" -> IF c.ret = 46 /\ HasNullableCountedUnbounded(c.ast) THEN "D47" ELSE "none"
     [] c.kind = "matches" -> IF MatchesOK_D40(c) /\ MatchesAsBuilt(c) THEN "D40" ELSE "none"
     [] c.kind = "cond" -> IF c.obs # VerdictAB(c.ast, c.env) THEN "none"      \* a known finding is tolerated only with EXACTLY its effect
                         ELSE IF HasUndefQuant(c.ast, c.env, NoLoc) THEN "D15"
